@@ -11,7 +11,7 @@
    names nothing, and the head cache points at the newest node of every branch (the default branch
    included).  [oracle_ok s r]: the UUIDs the request lets dvid.NewUUID generate
    are well formed, pairwise distinct and not in use. *)
-From DV Require Import Base.Prelude Model.Repo Model.RepoInv Proofs.Repo.
+From DV Require Import Base.Prelude Model.Repo Model.RepoInv Proofs.Repo Model.RepoExt Proofs.RepoExt.
 From Coq Require Import String Ascii.
 From stdpp Require Import gmap strings.
 Local Open Scope string_scope.
@@ -191,3 +191,103 @@ Example C07_repaired_refuses :
   snd (step repaired (run repaired init prelude) (RTag (U u2) "")) = Fail /\
   snd (step repaired init (RNewRepo (Some "xa") "" u1)) = Fail.
 Proof. exact repaired_refuses_witnesses. Qed.
+
+(* ================= Round 4: hide-branch, make-master, POST repo info (Model/RepoExt.v) =================
+
+   [xreq] = a request of Model.Repo (XB r) | XRepoInfo | XHideBranch | XMakeMaster; [xstep fx xf] runs
+   them; [x_repaired] = hideBranch refuses a branch that something outside it hangs off
+   (repo_patches/C07-8); [x_found] = hideBranch as /repo has it.  makeMaster is modelled as found only.
+
+   The full statements, for every extended request,
+
+     forall s r, RepoInv s -> xoracle_ok s r -> RepoInv (fst (xstep repaired x_repaired s r))
+     forall s r, RepoInv s -> xoracle_ok s r -> is_done (snd (xstep repaired x_repaired s r)) = false ->
+                 frame (fst (xstep repaired x_repaired s r)) = frame s
+
+   are FALSE for r = XMakeMaster (C07_make_master_name_refuted, C07_make_master_literal_refuted: the
+   code as found, no repair modelled).  Proved instead: the _partial versions below (every request
+   but make-master, every argument), and for make-master what it can never touch
+   (C07_make_master_shape_partial). *)
+
+Theorem C07_ext_inv_step_partial : forall (s : state) (r : xreq),
+  RepoInv s -> xoracle_ok s r -> is_make_master r = false ->
+  RepoInv (fst (xstep repaired x_repaired s r)).
+Proof. exact xinv_step_partial. Qed.
+Print Assumptions C07_ext_inv_step_partial.
+
+(* every history, of any length, of old and new requests (accepted or refused) without make-master *)
+Theorem C07_ext_inv_run_partial : forall rs : list xreq,
+  xoracles_ok repaired x_repaired init rs -> no_make_master rs = true ->
+  RepoInv (xrun repaired x_repaired init rs).
+Proof. exact xinv_reachable_partial. Qed.
+Print Assumptions C07_ext_inv_run_partial.
+
+Theorem C07_ext_error_frame_partial : forall (s : state) (r : xreq),
+  RepoInv s -> xoracle_ok s r -> is_make_master r = false ->
+  is_done (snd (xstep repaired x_repaired s r)) = false ->
+  frame (fst (xstep repaired x_repaired s r)) = frame s.
+Proof. exact xerror_frame_partial. Qed.
+Print Assumptions C07_ext_error_frame_partial.
+
+(* hide-branch on its own, exact UUID: the invariant survives, whatever the branch name *)
+Theorem C07_hide_branch_inv : forall s u b, RepoInv s -> RepoInv (fst (do_hide_branch x_repaired s u b)).
+Proof. exact inv_hide_branch. Qed.
+Print Assumptions C07_hide_branch_inv.
+
+(* make-master, any state (no hypothesis), any arguments, whatever it answers: m.repos, repoToUUID,
+   uuidToVersion, versionToUUID and the three counters are unchanged, and every repo keeps its root,
+   its node set and, node by node, UUID, parents, children and commit flag -- only branch names and
+   the head cache can change.  (So the single-root, acyclic, mirrored-links, committed-parent and
+   unique-identifier clauses of RepoInv cannot be broken by make-master; the branch clauses can.) *)
+Theorem C07_make_master_shape_partial : forall s u nm,
+  ids_of (fst (xstep repaired x_repaired s (XMakeMaster u nm))) = ids_of s /\
+  repos_same_shape s (fst (xstep repaired x_repaired s (XMakeMaster u nm))).
+Proof. exact xmake_master_shape. Qed.
+Print Assumptions C07_make_master_shape_partial.
+
+(* the code as found: hiding branch a while branch c hangs off it is accepted and leaves a node
+   whose parent is no node *)
+Theorem C07_hide_branch_orphan_refuted :
+  xoracles_ok repaired x_found init hide_orphan_history /\
+  is_done (snd (xstep repaired x_found (xrun repaired x_found init (xprelude ++ [XB (RBranch (U u2) "c" "" u4)]))
+                      (XHideBranch (U u1) "a"))) = true /\
+  ~ RepoInv (xrun repaired x_found init hide_orphan_history).
+Proof. exact hide_branch_orphan_refuted. Qed.
+Print Assumptions C07_hide_branch_orphan_refuted.
+
+(* make-master (as found = as modelled) renames the old master chain to a name in use: two heads *)
+Theorem C07_make_master_name_refuted :
+  xoracles_ok repaired x_repaired init make_master_history /\
+  is_done (snd (xstep repaired x_repaired (xrun repaired x_repaired init (xprelude ++ [XB (RNewVersion (U u1) "" u4)]))
+                      (XMakeMaster (U u2) "b"))) = true /\
+  ~ RepoInv (xrun repaired x_repaired init make_master_history).
+Proof. exact make_master_name_refuted. Qed.
+Print Assumptions C07_make_master_name_refuted.
+
+Theorem C07_make_master_literal_refuted :
+  ~ RepoInv (xrun repaired x_repaired init (xprelude ++ [XB (RNewVersion (U u1) "" u4); XMakeMaster (U u2) "master"])).
+Proof. exact make_master_literal_refuted. Qed.
+Print Assumptions C07_make_master_literal_refuted.
+
+(* non-vacuity: a history with POST info, an accepted hide-branch, the hidden UUID and branch name
+   used again; every request answered Done, oracle hypothesis true at every step *)
+Example C07_ext_history_ok :
+  xoracles_ok repaired x_repaired init xhistory /\ no_make_master xhistory = true /\
+  xall_done repaired x_repaired init xhistory = true /\
+  size (st_u2v (xrun repaired x_repaired init xhistory)) = 3%nat.
+Proof. exact xhistory_ok. Qed.
+
+Example C07_ext_history_inv : RepoInv (xrun repaired x_repaired init xhistory).
+Proof. apply C07_ext_inv_run_partial; apply xhistory_ok. Qed.
+
+Example C07_hide_branch_repaired_refuses :
+  snd (xstep repaired x_repaired (xrun repaired x_repaired init (xprelude ++ [XB (RBranch (U u2) "c" "" u4)]))
+             (XHideBranch (U u1) "a")) = Fail.
+Proof. exact hide_branch_repaired_refuses. Qed.
+
+(* make-master with a fresh name and no merge on the chain does what it is meant to *)
+Example C07_make_master_accepts :
+  let s := xrun repaired x_repaired init (xprelude ++ [XB (RNewVersion (U u1) "" u4); XMakeMaster (U u2) "old"]) in
+  matching s (U (u1 ++ ":master")) = Done u2 /\ matching s (U (u1 ++ ":old")) = Done u4 /\
+  matching s (U (u1 ++ ":a")) = Fail.
+Proof. exact make_master_accepts. Qed.
